@@ -67,6 +67,14 @@ def gen(rng, tier):
     base, names = gen_dag(rng, rng.randint(2, 9) if rng.random() > 0.03 else rng.choice([350, 700, 1100]))
     if rng.random() < 0.6:
         rng.shuffle(base)  # children before parents
+    if rng.random() < 0.2:
+        # the first lines (those the dialect peek will see) spell multi-valued attributes as repeated keys, the later
+        # ones as comma lists: the same Parent graph either way
+        for i, f in enumerate(base):
+            if not any(len(a[1]) > 1 for a in f["attrs"]):
+                f["attrs"].append(["Dbxref", ["x:1", "y:2"]])
+            if i < 12:
+                f["_repeat"] = True
     steps = [{"op": "create", "feats": base, "form": rng.choice(["path", "string", "list", "gen"])}]
     start = max(20, len(base) + 10)
     for _ in range(rng.choice([0, 0, 1, 1, 2, 3])):
